@@ -40,8 +40,6 @@ def parseDealer? (nq : Nat) (s : String) : Option ShamirPoly := do
   let ms ← (s.splitOn "|").mapM parseMat?
   some (ms.map fun m => ⟨nq, m⟩)
 
-def zeroQP (r : RingQP) (n : Nat) : QP := ⟨r.nq, r.ms.map fun _ => List.replicate n 0⟩
-
 def handleOpt (toks : List String) : Option String :=
   match toks with
   | "genpoly" :: nq :: thr :: secret :: k :: rest => do
